@@ -17,11 +17,13 @@
                                    sqlalchemy/api.py:update_action_execution_heartbeat (by id, any state)
      step, run                     the operations above under a virtual clock
      ts_of, stuck_decision,        mistral/engine/workflow_handler.py:_check_and_fix_integrity
-     integrity_pass                (and _schedule_check_and_fix_integrity: negative delay => never)
+     integrity_pass, rearms        (and _schedule_check_and_fix_integrity: negative delay => never); the guards in
+                                   front of the re-arm call come from Gen/IntegrityShape.v (translate/tr_integrityshape.py)
+     chain, cstep, crun            the periodic chain: start_workflow / the check as a scheduler job / rerun_workflow
    Correspondence suite: harness/suites/C20.py (select, pass_ops, service, integrity).
    Times are whole seconds of the virtual clock (utc_now_sec / patched utcnow). No proofs in this file. *)
 From Coq Require Import List ZArith Bool.
-Require Import Mistral.Gen.States.
+Require Import Mistral.Gen.States Mistral.Gen.IntegrityShape.
 Import ListNotations.
 Open Scope Z_scope.
 
@@ -186,20 +188,89 @@ Definition stuck_decision (delay now : Z) (t : trow) : bool :=
 
 Definition is_running_row (t : trow) : bool := state_eqb (t_state t) RUNNING.
 
+(* The early returns in front of the re-arming call (Gen/IntegrityShape.v, extracted from the source on every run;
+   the extractor refuses any other statement in front of it). *)
+Definition guard_blocks (g : rearm_guard) (delay : Z) (wf : option state) : bool :=
+  match g with
+  | GNegativeDelay => delay <? 0
+  | GWorkflowMissing => match wf with None => true | Some _ => false end
+  | GWorkflowCompleted => match wf with Some ws => is_completed ws | None => false end
+  end.
+
+Definition rearms (delay : Z) (wf : option state) : bool :=
+  negb (existsb (fun g => guard_blocks g delay wf) rearm_guards).
+
 (* wf = None: no such workflow execution.  tasks = the workflow's task rows in query order.
-   Result: (is the next check scheduled (at now + 120), ids handed to schedule_on_action_complete). *)
+   Result: (is the next check scheduled (at now + rearm_period), ids handed to schedule_on_action_complete).
+   The re-arm directly follows the guards, everything after it happens iff the re-arm happened. *)
 Definition integrity_pass (delay : Z) (batch : nat) (now : Z) (wf : option state) (tasks : list trow)
   : bool * list nat :=
-  if delay <? 0 then (false, [])
-  else match wf with
-       | None => (false, [])
-       | Some ws =>
-           if is_completed ws then (false, [])
-           else (true, map t_id (filter (stuck_decision delay now)
-                                        (firstn batch (filter is_running_row tasks))))
-       end.
+  if rearms delay wf
+  then (true, map t_id (filter (stuck_decision delay now) (firstn batch (filter is_running_row tasks))))
+  else (false, []).
 
-Definition next_check_at (now : Z) : Z := now + 120.
+Definition next_check_at (now : Z) : Z := now + rearm_period.
+
+(* ---- the chain of periodic checks ----------------------------------------
+   mirrors: workflow_handler.start_workflow (first check after start_check_after), _check_and_fix_integrity as a
+   scheduler job (removed when it runs, re-arms itself), rerun_workflow (schedules a check after `delay`),
+   _schedule_check_and_fix_integrity (refuses only on a negative delay); pause/resume/stop = CWf.
+   Scheduler assumption made explicit in CTick/CFire: a job runs when it is due and the clock does not move past a
+   pending job (property C13 covers the scheduler itself). *)
+Record chain := mkCh { ch_wf : option state; ch_tasks : list trow; ch_jobs : list Z; ch_clock : Z;
+                       ch_fired : list (Z * list nat) }.
+
+Inductive cev :=
+| CTick (dt : N)
+| CFire (k : nat)                (* the scheduler runs the k-th pending integrity job *)
+| CTasks (l : list trow)         (* any change of the task rows by the engine *)
+| CWf (w : option state)         (* pause / resume / completion / deletion of a live workflow *)
+| CRerun (ws : state).           (* rerun_workflow: Workflow._recursive_rerun schedules a check at once,
+                                    workflow_handler.rerun_workflow another one after `delay` *)
+
+Definition live (wf : option state) : bool :=
+  match wf with Some ws => negb (is_completed ws) | None => false end.
+
+Fixpoint remove_nth {A : Type} (k : nat) (l : list A) : list A :=
+  match l, k with
+  | [], _ => []
+  | _ :: r, O => r
+  | x :: r, S k' => x :: remove_nth k' r
+  end.
+
+Definition schedule_refuses (delay : Z) : bool :=
+  existsb (fun g => guard_blocks g delay (Some RUNNING)) schedule_guards.
+
+Definition chain_start (delay : Z) (ws : state) (t0 : Z) : chain :=
+  mkCh (Some ws) [] (if schedule_refuses delay then [] else [t0 + start_check_after]) t0 [].
+
+Definition cstep (delay : Z) (batch : nat) (c : chain) (e : cev) : chain :=
+  match e with
+  | CTick dt =>
+      let t := ch_clock c + Z.of_N dt in
+      if forallb (fun j => t <=? j) (ch_jobs c)
+      then mkCh (ch_wf c) (ch_tasks c) (ch_jobs c) t (ch_fired c) else c
+  | CFire k =>
+      match nth_error (ch_jobs c) k with
+      | Some due =>
+          if due <=? ch_clock c then
+            let res := integrity_pass delay batch (ch_clock c) (ch_wf c) (ch_tasks c) in
+            mkCh (ch_wf c) (ch_tasks c)
+                 (remove_nth k (ch_jobs c) ++ (if fst res then [next_check_at (ch_clock c)] else []))
+                 (ch_clock c) (ch_fired c ++ [(ch_clock c, snd res)])
+          else c
+      | None => c
+      end
+  | CTasks l => mkCh (ch_wf c) l (ch_jobs c) (ch_clock c) (ch_fired c)
+  | CWf w => if live (ch_wf c) then mkCh w (ch_tasks c) (ch_jobs c) (ch_clock c) (ch_fired c) else c
+  | CRerun ws =>
+      mkCh (Some ws) (ch_tasks c)
+           (ch_jobs c ++ (if schedule_refuses delay then [] else [ch_clock c; ch_clock c + delay]))
+           (ch_clock c) (ch_fired c)
+  end.
+
+Definition crun (delay : Z) (batch : nat) (evs : list cev) (c : chain) : chain :=
+  fold_left (cstep delay batch) evs c.
 
 (* ---- printers used by the correspondence suite -------------------------- *)
 Definition kind_code (o : option rkind) : Z :=
@@ -224,6 +295,10 @@ Definition select_ids (c : hbcfg) (now : Z) (rows : list arow) : list Z :=
 Definition integrity_view (delay : Z) (batch : nat) (now : Z) (wf : option state) (tasks : list trow) : list Z :=
   let '(b, ids) := integrity_pass delay batch now wf tasks in
   (if b then 1 else 0) :: map Z.of_nat ids.
+
+(* (pending job due times, fired checks as at,n,id1..idn ...) *)
+Definition chain_view (c : chain) : list Z * list Z :=
+  (ch_jobs c, flat_map (fun f => fst f :: Z.of_nat (length (snd f)) :: map Z.of_nat (snd f)) (ch_fired c)).
 
 Definition pass_times (c : hbcfg) (t0 : Z) (n : nat) : list Z :=
   flat_map (fun k => match nth_pass_at c t0 k with Some t => [t] | None => [] end) (seq 0 n).
